@@ -7,8 +7,10 @@ MODULES = [
     ('src/volatile_memory.rs', 'verif_kani_vs', 'vs.rs'),
     ('src/volatile_memory.rs', 'verif_kani_c06', 'c06.rs'),
     ('src/bitmap/backend/atomic_bitmap.rs', 'verif_kani_c08', 'c08.rs'),
+    ('src/bitmap/backend/atomic_bitmap.rs', 'verif_kani_bm', 'bm.rs'),
     ('src/io.rs', 'verif_kani_io', 'io.rs'),
     ('src/mmap/unix.rs', 'verif_kani_region', 'region.rs'),
+    ('src/mmap/mod.rs', 'verif_kani_rb', 'rb.rs'),
 ]
 
 _ADDR_CTX = [r'macro_rules!\s+impl_address_ops', r'\(\$T:ident, \$V:ty\)\s*=>', r'impl Address for \$T']
@@ -60,6 +62,15 @@ FFI = {
 
 # O4: appended #[cfg(kani)] helper items
 APPEND = {
+    'src/mmap/unix.rs': '''
+/// O4: a region over harness-owned memory, built without mmap (never owned, so Drop does nothing)
+#[cfg(kani)]
+impl<B: Bitmap> MmapRegion<B> {
+    pub(crate) fn verif_from_raw(addr: *mut u8, size: usize, bitmap: B) -> Self {
+        MmapRegion { addr, size, bitmap, file_offset: None, prot: 0, flags: 0, owned: false, hugetlbfs: None }
+    }
+}
+''',
     'src/lib.rs': '''
 /// O3: logging models of the libc functions the crate calls (Kani can neither execute nor stub foreign
 /// functions).  Each records its arguments and returns an arbitrary result the real call could return.
